@@ -58,37 +58,45 @@ func (dc *agentConnection) receive(data []byte) {
 }
 
 func (dc *agentConnection) Read(b []byte) (int, error) {
-	dc.m.Lock()
-	if len(dc.buff) != 0 {
-		n := copy(b[:], dc.buff[0:])
-		dc.buff = dc.buff[n:]
-		dc.m.Unlock()
-		return n, nil
-	}
-	dc.m.Unlock()
-	verifReadGap(dc)
-
 	after := noDeadline
 
 	if !dc.readTimeout.IsZero() {
 		after = time.After(time.Until(dc.readTimeout))
 	}
 
-	select {
-	case <-after:
-		return 0, ErrTimeout
-	case _, ok := <-dc.in:
-		if !ok {
+	for {
+		dc.m.Lock()
+		if len(dc.buff) != 0 {
+			n := copy(b[:], dc.buff[0:])
+			dc.buff = dc.buff[n:]
+			dc.m.Unlock()
+			return n, nil
+		}
+		dc.m.Unlock()
+		verifReadGap(dc)
+
+		// wait for the receiver's notification (it is kept when it was sent before we
+		// got here) or for the end of the stream, then look at the buffer again
+		select {
+		case <-after:
+			return 0, ErrTimeout
+		case _, ok := <-dc.in:
+			if ok {
+				continue
+			}
+
+			dc.m.Lock()
+			n := copy(b[:], dc.buff[0:])
+			dc.buff = dc.buff[n:]
+			dc.m.Unlock()
+
+			if n > 0 {
+				return n, nil
+			}
+
 			log.Errorf("Error reading from channel, return EOF")
 			return 0, io.EOF
 		}
-
-		dc.m.Lock()
-		n := copy(b[:], dc.buff[0:])
-		dc.buff = dc.buff[n:]
-		dc.m.Unlock()
-
-		return n, nil
 	}
 }
 
